@@ -26,7 +26,7 @@ SPECS = {
     "LinearModel": [{}, {"gemini": "wasserstein_ova", "batch_size": 2}], "LinearMMD": [{"kernel": "rbf_g"}, {"kernel": "pre_psd"}],
     "LinearWasserstein": [{"ovo": True}], "RIM": [{"batch_size": 3}], "KernelRIM": [{}, {"base_kernel": "rbf_g", "batch_size": 2}],
     "MLPModel": [{}, {"gemini": "mi", "batch_size": 2}], "MLPMMD": [{"ovo": True}], "MLPWasserstein": [{"metric": "l1"}],
-    "SparseLinearModel": [{"alpha": 0.3}, {"alpha": 0.3, "dynamic": True, "batch_size": 2}], "SparseLinearMMD": [{"alpha": 0.3, "groups": [[0, 1]]}],
+    "SparseLinearModel": [{"alpha": 0.3}, {"alpha": 0.3, "dynamic": True, "batch_size": 2}], "SparseLinearMMD": [{"alpha": 0.3, "groups": [[0, 1]]}, {"alpha": 0.3, "groups": [[1]]}],
     "SparseLinearMI": [{"alpha": 0.3}, {"alpha": 0.0}], "SparseMLPModel": [{"alpha": 0.3}], "SparseMLPMMD": [{"alpha": 0.3, "batch_size": 3}],
     "CategoricalModel": [{}], "CategoricalMMD": [{"kernel": "rbf"}], "CategoricalWasserstein": [{}],
     "Kauri": [{}, {"max_features": 1, "max_clusters": 4}, {"max_clusters": 6, "max_leaves": 9}], "Douglas": [{}, {"n_cuts": 2, "batch_size": 2}],
@@ -138,7 +138,7 @@ def history_search(case):
     spec = dict(SPECS[name][si], random_state=seed)
     X1 = seams.tiny_data(5, 2, seed + 70)
     X2 = seams.tiny_data(7, 3, seed + 71)
-    if name in M.SPARSE and "groups" in spec:
+    if name in M.SPARSE and "groups" in spec and spec["groups"] == [[0, 1]]:
         X2 = seams.tiny_data(7, 2, seed + 71)
 
     X3 = seams.tiny_data(5, 2, seed + 72) * 2.0          # same shape as X1, other values (stale caches keyed by shape)
